@@ -20,6 +20,11 @@ from .engine_g import CaseOut
 from .core import write_replay
 
 NCONF = 3
+# The registry starts with a built-in exclusion list (claw_state.packages_trie_blacklist: 'beartype' and
+# the packages of datashamemod.BLACKLIST_PACKAGE_NAMES).  One representative of it is re-keyed as a
+# label *constant* with a negative code, so that a symbolic label may alias it (labels are free
+# integers); the other built-in names stay concrete and are assumed distinct from every symbolic label.
+BUILTIN_CODES = {'beartype': -1}
 
 
 def confs():
@@ -166,7 +171,7 @@ class Model:
             for l, c, eff in self.regs:
                 if len(l) == k:
                     res = z3.If(z3.And(eff, self.prefix(l, q)), z3.IntVal(c), res)
-        black = z3.Or([self.prefix(s, q) for s in self.skips]) if self.skips else z3.BoolVal(False)
+        black = z3.Or([self.prefix(s, q) for s in self.skips] + [q[0] == c for c in BUILTIN_CODES.values()])
         return z3.If(black, z3.IntVal(-1), res)
 
     def nonempty(self):
@@ -196,6 +201,15 @@ def _patch_real_code():
     _PATCHED = True
 
 
+def _rekey_builtin(trie):
+    """Replace the concrete key of each representative built-in excluded package by a label constant
+    (same trie value), so that real dict lookups compare symbolic labels against it."""
+    for nm, code in BUILTIN_CODES.items():
+        if nm in trie and not isinstance(next((k for k in trie if k == nm and isinstance(k, SymLabel)), None), SymLabel):
+            v = dict.pop(trie, nm)
+            dict.__setitem__(trie, SymLabel(z3.IntVal(code), nm), v)
+
+
 def run_real(ops, names, q, CONFS, HOOKABLE):
     """Drive the real registry.  Returns (events, query result index, hook present)."""
     from beartype.claw._package.clawpkgmain import hook_packages, _blacklist_packages
@@ -207,6 +221,7 @@ def run_real(ops, names, q, CONFS, HOOKABLE):
     from beartype.claw._package.clawpkgtrie import PackagesTrieBlacklisted
     claw_state.reinit()
     PackagesTrieBlacklisted.clear()      # the shared leaf singleton must not carry state across paths
+    _rekey_builtin(claw_state.packages_trie_blacklist)
     events = []
     cms = []
     try:
@@ -258,7 +273,7 @@ def run_case(prop, name, sk, confkw, tier, src):
         names = [SymName([SymLabel(z, f'n{k}_{j}') for j, z in enumerate(row)]) for k, row in enumerate(zs)]
         q = SymName([SymLabel(z, f'q_{j}') for j, z in enumerate(zq)])
         allz = [z for row in zs for z in row] + zq
-        ex = Explorer([z >= 0 for z in allz], max_paths=4000)
+        ex = Explorer([z >= -len(BUILTIN_CODES) for z in allz], max_paths=4000)
         # the model, built once (it is a term over the labels; conflicts are symbolic)
         M = Model()
         expect_raise = []
@@ -349,7 +364,8 @@ def replay_c06(p):
     sk = p['hint']['sk']
     vals = p['labels']
     ops, lens, qlen = sk['ops'], sk['lens'], sk['qlen']
-    lab = lambda nm: f'pk{vals[nm]}'
+    inv = {c: n for n, c in BUILTIN_CODES.items()}
+    lab = lambda nm: inv.get(vals[nm], f'pk{vals[nm]}'.replace('-', '_'))
     names = ['.'.join(lab(f'n{k}_{j}') for j in range(L)) for k, L in enumerate(lens)]
     q = '.'.join(lab(f'q_{j}') for j in range(qlen))
     CONFS = confs()
@@ -410,7 +426,7 @@ def replay_c06(p):
         pre = '.'.join(parts[:k])
         if pre in regs and regs[pre] is not None:
             want = regs[pre]
-    if any(parts[:len(s.split('.'))] == s.split('.') for s in skips):
+    if any(parts[:len(s.split('.'))] == s.split('.') for s in skips) or parts[0] in BUILTIN_CODES:
         want = -1
     if gi != want:
         problems.append(f'after {ops} on names {names}: get_package_conf_or_none({q!r}) is conf {gi}, the model says {want}')
